@@ -75,6 +75,11 @@ def batch(prop, tier, sd):
         for d in [x for x in out if x['id'].startswith('r')]:
             mr += ds.multi_ret_variants(d) + ds.field_ret_variants(d)
         out += rng.sample(mr, min(len(mr), 8 if quick else 60))
+        # a provided value that is itself a context.Context (returned by a provider, consumed by others)
+        cv = []
+        for d in [x for x in out if x['id'][0] in 'rt' and 'variant_of' not in x]:
+            cv += ds.ctxval_variants(d)
+        out += rng.sample(cv, min(len(cv), 6 if quick else 40))
         if prop == 'C02':
             base = [d for d in out if d['id'].startswith('r')][: (10 if quick else 60)]
             for d in base:
